@@ -4,7 +4,10 @@ For generated programs (module with imported symbols, routines and functions wit
 used as kinds, array bounds and initial values, nested loops/ifs whose bodies get their own
 symbols) and a random node: `c = node.copy()`; then on the REAL objects
   * `c == node`;
-  * no node object and no symbol object of a copied scope is shared (identity);
+  * no node object and no symbol object of a copied scope is shared (identity), including the
+    expression nodes inside the declarations (array bounds, initial values, default initialisers of
+    the components of derived types defined in the copied scopes);
+  * the copy left the original alone: nothing in the original points at a symbol of the copy;
   * every symbol reachable from the copy (references, loop variables, kinds of literals, table
     entries, datatypes / initial values / interfaces of the declared symbols) that belongs to a
     copied scope of the original is a failure (must be the copy's own symbol);
@@ -257,6 +260,8 @@ def apply_tweaks(root, tweaks):
     from psyclone.psyir.nodes import Schedule, Routine, Reference, Assignment, Literal, ArrayReference
     from psyclone.psyir.symbols import DataSymbol, ArrayType, ScalarType, INTEGER_TYPE
     for tw in tweaks:
+        if tw[0] == "ltype":
+            define_type(root, tw)
         if tw[0] != "inner":
             continue
         scheds = [s for s in root.walk(Schedule) if not isinstance(s, Routine)]
@@ -272,6 +277,69 @@ def apply_tweaks(root, tweaks):
                                             datatype=ArrayType(ScalarType(ScalarType.Intrinsic.REAL, prec), [bound]))
         sched.addchild(Assignment.create(ArrayReference.create(sym, [Literal("1", INTEGER_TYPE)]),
                                          Literal("0.0", ScalarType(ScalarType.Intrinsic.REAL, prec))))
+
+
+def define_type(root, tw):
+    """["ltype", r, name]: a derived type defined in routine r (module if r < 0); its components use
+    parameters of that very scope as kind, array bound and in default initialisers"""
+    from psyclone.psyir.nodes import Routine, Container, FileContainer, Reference, Literal, BinaryOperation
+    from psyclone.psyir.symbols import (DataSymbol, DataTypeSymbol, ArrayType, ScalarType, StructureType, Symbol,
+                                        INTEGER_TYPE)
+    if tw[1] < 0:
+        scopes = [c for c in root.walk(Container) if not isinstance(c, FileContainer)]
+        kn, bn = "gk", "gn"
+    else:
+        scopes = root.walk(Routine)
+        kn, bn = "k", "m"
+    if not scopes:
+        return
+    tab = scopes[tw[1] % len(scopes)].symbol_table
+    k, m = local(tab, kn), local(tab, bn)
+    if not isinstance(k, DataSymbol) or not isinstance(m, DataSymbol):
+        return
+    real_k = ScalarType(ScalarType.Intrinsic.REAL, k)
+    pub = Symbol.Visibility.PUBLIC
+    st = StructureType.create([
+        ("a", real_k, pub, Literal("1.5", real_k)),
+        ("b", ArrayType(real_k, [Reference(m)]), pub, None),
+        ("c", INTEGER_TYPE, pub, BinaryOperation.create(BinaryOperation.Operator.ADD, Reference(m),
+                                                        Literal("1", INTEGER_TYPE)))])
+    ts = tab.new_symbol(tw[2], symbol_type=DataTypeSymbol, datatype=st)
+    tab.new_symbol(tw[2] + "_v", symbol_type=DataSymbol, datatype=ts)
+    tab.new_symbol(tw[2] + "_vs", symbol_type=DataSymbol, datatype=ArrayType(ts, [Reference(m)]))
+
+
+def type_nodes(dt):
+    """the PSyIR expression nodes held by a datatype (array bounds, component initialisers)"""
+    from psyclone.psyir.nodes import Node
+    from psyclone.psyir.symbols import ArrayType, StructureType, DataType
+    out = []
+    if isinstance(dt, ArrayType):
+        if isinstance(dt.datatype, DataType):
+            out += type_nodes(dt.datatype)
+        for dim in dt._shape:   # pylint: disable=protected-access
+            if isinstance(dim, ArrayType.ArrayBounds):
+                out += dim.lower.walk(Node) + dim.upper.walk(Node)
+    elif isinstance(dt, StructureType):
+        for c in dt.components.values():
+            if isinstance(c.datatype, DataType):
+                out += type_nodes(c.datatype)
+            if c.initial_value is not None:
+                out += c.initial_value.walk(Node)
+    return out
+
+
+def decl_nodes(sym):
+    """the expression nodes that belong to the declaration of a symbol (datatype and initial value)"""
+    from psyclone.psyir.nodes import Node
+    from psyclone.psyir.symbols import DataSymbol, DataType
+    out = []
+    dt = getattr(sym, "datatype", None)
+    if isinstance(dt, DataType):
+        out += type_nodes(dt)
+    if isinstance(sym, DataSymbol) and sym.initial_value is not None:
+        out += sym.initial_value.walk(Node)
+    return out
 
 
 def frontend_broken(root):
@@ -345,7 +413,47 @@ def do_copy(ctx, r):
             fail = {"clause": "equal", "observed": f"c == node is {eq}", "expected": "True"}
     if fail is None:
         fail = refs_internal(ctx)
+    if fail is None:
+        fail = decl_nodes_disjoint(ctx)
+    if fail is None:
+        fail = original_untouched(ctx)
     return fail
+
+
+def decl_nodes_disjoint(ctx):
+    """no expression node inside the declarations (array bounds, initial values, default initialisers of
+    derived-type components) of the copied scopes is shared by the two trees"""
+    mine = {}
+    for s in ctx.sub_owned:
+        for n in decl_nodes(s):
+            mine[id(n)] = (s, n)
+    for s in ctx.copy_owned:
+        for n in decl_nodes(s):
+            if id(n) in mine:
+                o = mine[id(n)][0]
+                try:
+                    txt = n.debug_string().strip()
+                except Exception:   # pylint: disable=broad-except
+                    txt = type(n).__name__
+                return {"clause": "disjoint",
+                        "observed": f"the declaration of '{s.name}' in the copy and of '{o.name}' in the original share "
+                                    f"the expression node {type(n).__name__} '{txt}'",
+                        "expected": "no shared node"}
+    return None
+
+
+def original_untouched(ctx):
+    """copy() must not re-point anything in the original at the copy's symbols"""
+    own_copy = {id(s) for s in ctx.copy_owned}
+    from psyclone.psyir.nodes import ScopingNode
+    for s, how in reachable_syms(ctx, ctx.root, [x for n in ctx.root.walk(ScopingNode)
+                                                 for x in n.symbol_table.symbols]):
+        if id(s) in own_copy:
+            return {"clause": "refs_internal",
+                    "observed": f"after the copy the ORIGINAL uses symbol '{s.name}' (#{ctx.syms[id(s)][0]}) of the "
+                                f"copy through: {how}",
+                    "expected": "the original keeps using its own symbol"}
+    return None
 
 
 def reachable_syms(ctx, root, owned):
@@ -706,6 +814,18 @@ CORPUS = [
     ("module tmod\n  implicit none\n  integer, parameter :: gk = 8\ncontains\n  subroutine s0(x)\n"
      "    real(kind=gk), intent(inout) :: x\n    x = x + 2.0_gk\n  end subroutine s0\nend module tmod\n",
      [], "FileContainer", "orig", [["rename", "gk", "gkk"]]),
+    # a derived type defined in the copied routine whose component initialiser uses a local parameter
+    # (seeded/C15: the initialiser expression was shared and re-pointed at the copy's symbol)
+    ("module demo_mod\n  implicit none\n  integer, parameter :: wp = 8\ncontains\n  subroutine sub(x)\n"
+     "    real(kind=wp), intent(inout) :: x\n    integer, parameter :: n0 = 4\n    type :: pt\n"
+     "      integer :: k = n0 + 1\n      real(kind=wp) :: w = 2.0_wp\n    end type pt\n    type(pt) :: p\n"
+     "    x = x + p%k + p%w\n  end subroutine sub\nend module demo_mod\n",
+     [], "Routine", "copy", [["rename", "n0", "n_renamed"]]),
+    ("module demo_mod\n  implicit none\n  integer, parameter :: wp = 8\ncontains\n  subroutine sub(x)\n"
+     "    real(kind=wp), intent(inout) :: x\n    integer, parameter :: n0 = 4\n    type :: pt\n"
+     "      integer :: k = n0 + 1\n      real(kind=wp) :: w = 2.0_wp\n    end type pt\n    type(pt) :: p\n"
+     "    x = x + p%k + p%w\n  end subroutine sub\nend module demo_mod\n",
+     [["ltype", 0, "gt0"], ["ltype", -1, "gt1"]], "Container", "orig", [["rename", "n0", "n_renamed"], ["rename", "wp", "wq"]]),
 ]
 
 
@@ -719,7 +839,7 @@ def corpus_case(entry):
     for ed in named:
         if ed[0] == "rename":
             s = next(s for _, s in ctx.syms.values() if s.name == ed[1])
-            edits.append(["rename", ctx.syms[id(s)][0], ed[2]])
+            edits.append(["rename", ctx.syms[id(s)][0] + (ctx.M if side == "copy" else 0), ed[2]])
     del node
     return src, tweaks, r, side, edits
 
@@ -739,6 +859,9 @@ def run(chk):
         "(names of table symbols and of the symbols their datatypes, initial values and interfaces use): C15.view",
         "node attributes other than symbol/variable/return_symbol/literal kind hold no symbols (PSyKAl nodes excluded)",
         "UnsupportedFortranType is written from its text; its partial_datatype is not followed",
+        "the model has no identities for the expression nodes INSIDE datatypes (array bounds, initial values, default "
+        "initialisers of derived-type components): their symbols are the model's `deps` (re-mapped by copy), their "
+        "node-disjointness between original and copy is checked on the real objects only (clause 'disjoint')",
         "edits of the original may rename/retype only symbols declared in the copied scopes, unless the copied "
         "subtree uses no outer-scope symbol (outer-scope symbols are shared with the copy by design)",
     ]
@@ -755,6 +878,7 @@ def run(chk):
     lines, metas = [], []
     reported = [0]
     nviol = [0]
+    seen_viol = set()
 
     def handle(src, tweaks, r, side, res, from_corpus=False):
         if res["status"] == "frontend-broken":
@@ -781,8 +905,11 @@ def run(chk):
             if classified(src, tweaks, side, res):
                 stats["known_finding_cases"] = stats.get("known_finding_cases", 0) + 1
             elif nviol[0] < 3:
-                nviol[0] += 1
-                chk.violation(payload_of(src, tweaks, res, side))
+                pay = payload_of(src, tweaks, res, side)
+                if common.h(pay) not in seen_viol:
+                    seen_viol.add(common.h(pay))
+                    nviol[0] += 1
+                    chk.violation(pay)
         if "line" in res:
             lines.append(res["line"])
             nontriv = False
